@@ -124,11 +124,23 @@ def _check_selectors(ctx: Ctx, m: pf.Module, facts: Facts) -> Dict[str, pf.FuncD
         # R3a: nothing gives up inside the loop
         for lp in loops:
             early = []
-            for n in ast.walk(lp):
-                if isinstance(n, ast.Return) and (n.value is None or (isinstance(n.value, ast.Constant) and n.value.value is None)):
-                    early.append(n)
-                elif isinstance(n, ast.Break):
-                    early.append(n)
+
+            def scan(stmts, in_inner_loop):
+                for x in stmts:
+                    if isinstance(x, (ast.FunctionDef, ast.AsyncFunctionDef, ast.ClassDef)):
+                        continue
+                    if isinstance(x, ast.Return) and (x.value is None or (isinstance(x.value, ast.Constant) and x.value.value is None)):
+                        early.append(x)
+                    elif isinstance(x, ast.Break) and not in_inner_loop:
+                        early.append(x)
+                    inner = in_inner_loop or isinstance(x, (ast.For, ast.AsyncFor, ast.While))
+                    for fld in ('body', 'orelse', 'finalbody'):
+                        sub = getattr(x, fld, None)
+                        if isinstance(sub, list) and sub and isinstance(sub[0], ast.stmt):
+                            scan(sub, inner if fld == 'body' else in_inner_loop)
+                    for h in getattr(x, 'handlers', []) or []:
+                        scan(h.body, in_inner_loop)
+            scan(lp.body, False)
             # `break`/`return None` in nested loops over something else are still early exits of the selection
             cons = f'{FI}::{qual}::for {pf.nsrc(lp.target)} in {short(pf.nsrc(lp.iter), 40)}'
             ctx.check(not early, 'R3', cons,
@@ -602,7 +614,7 @@ def _check_shapes(ctx: Ctx) -> None:
     # dispatcher uses the rounded actual bytes of the request
     fn = m.func('requested_storage_bytes_to_actual_storage_gib')
     ps = _params(fn)
-    sto = [p for p in ps if _role(p) == 'storage']
+    sto = [p for p in ps if _role(p) == 'storage' and not p.startswith('allow')]
     ctx.need(len(sto) == 1, f'requested_storage_bytes_to_actual_storage_gib: parameters {ps}')
     calls = [c for c in pf.calls_in(fn) if (pf.dotted(c.func) or '').endswith('_requested_to_actual_storage_bytes')]
     ctx.need(len(calls) == 2, 'requested_storage_bytes_to_actual_storage_gib: expected one per-cloud call each')
@@ -693,11 +705,11 @@ def run(ctx: Ctx) -> None:
                        'fits-one-worker guard and storage provenance of every returned placement; truth table of select_inst_coll; like-named argument plumbing and '
                        'tuple role order along front end -> select_inst_coll -> selector -> convert; max/ceil shape typing of the granted>=requested helpers; per-cloud dispatch agreement.')
     ctx.rule('R1', 'pool selectors use a pool only after pool.cloud/preemptible/label (and worker_type) equal the request; job-private checks the cloud', 8)
-    ctx.rule('R2', 'every pool placement is guarded by cores_mcpu <= worker_cores*1000, has storage from the request (not None), memory raises cores before memory is derived', 11)
+    ctx.rule('R2', 'every pool placement is guarded by cores_mcpu <= worker_cores*1000, has storage from the request (not None), memory raises cores before memory is derived', 10)
     ctx.rule('R3', 'rejection only after all pools; select_inst_coll dispatch table; front end maps None to HTTP 400 before use', 11)
-    ctx.rule('R4', 'placement tuples are (name, cores, memory, storage) at every writer/reader; arguments go to like-named parameters along the chain', 15)
+    ctx.rule('R4', 'placement tuples are (name, cores, memory, storage) at every writer/reader; arguments go to like-named parameters along the chain', 17)
     ctx.rule('R5', 'granted >= requested shapes: max(cores, ceil(memory/per-core)), storage returns >= request, bytes->GiB rounds up', 15)
-    ctx.rule('R6', 'in every cloud == X branch only X helpers are used (anchored modules)', 20)
+    ctx.rule('R6', 'in every cloud == X branch only X helpers are used (anchored modules)', 26)
     ctx.assume('float arithmetic in adjust_cores_for_packability / cores<->memory conversions is not decided (numeric clause)')
     ctx.assume("the job validator admits no 'cloud' key, so the job's cloud equals the deployment CLOUD")
     mi = pf.load(FI)
